@@ -1,7 +1,7 @@
 (** C04 — each segment goes too-early -> available -> gone, at exactly the right instants.
     [phase]: 0 = 425 Too Early, 1 = 200, 2 = 410 Gone.  The availability instant of segment n is
     A = availabilityStartTime + E n / timescale - availabilityTimeOffset. *)
-From Verif Require Import GoSem Timeline TimelineProofs.
+From Verif Require Import GoSem Timeline TimelineProofs TimelineF.
 From VerifGen Require Consts.
 
 (** For a fixed URL the response never returns to an earlier phase (all inputs, on and off the
@@ -61,6 +61,23 @@ Theorem C04_below_start : forall r loopMS c id now,
   0 <= id < startNr c -> startNr c < two32 -> lookup r loopMS c ByNumber id now = TNotFound.
 Proof. exact lookup_below_start. Qed.
 Print Assumptions C04_below_start.
+
+(** float64: the Go code evaluates the availability test in float64 ([checkTimeF], bit-faithful,
+    run against the implementation by the correspondence).  The segment lookup around it is
+    integer code, so the float64 lookup equals the exact one whenever the two tests agree on the
+    instance at hand... *)
+Theorem C04_float_bridge : forall (ck1 ck2 : chk) r loopMS c mode segID now,
+  (forall A, ck1 A (ts r) now (tsbdS c) (ato c) = ck2 A (ts r) now (tsbdS c) (ato c)) ->
+  lookupG ck1 r loopMS c mode segID now = lookupG ck2 r loopMS c mode segID now.
+Proof. exact lookupG_ext. Qed.
+Print Assumptions C04_float_bridge.
+
+(** ... and they do not always agree: the full statement "available exactly at A" is false of the
+    float64 code at an instant on the millisecond grid (known finding float-edge-first-instant-with-ato). *)
+Theorem C04_float_edge_refuted : exists A tsc now tsbd a,
+  checkTime A tsc now tsbd a = TvOk /\ checkTimeF A tsc now tsbd a = TvTooEarly 0.
+Proof. exists (60060 + 30 * 30000), 30000, 31502, 3600, (Some 500). exact checkTimeF_edge_witness. Qed.
+Print Assumptions C04_float_edge_refuted.
 
 (** The margin used by the model is the constant of the Go source (regenerated on every run). *)
 Theorem C04_margin_const : Consts.app_timeShiftBufferDepthMarginS = tsbdMarginS
